@@ -25,7 +25,10 @@ PROFILES = {
     "singleton": dict(w_invoke=10, p_fault=0.15, n_types=5, p_export=0.25, w_decorate=3, p_group_result=0.4,
                       p_group_param=0.45, p_flatten=0.6, p_soft=0.2),
     "bystanders": dict(w_provide=12, w_invoke=4, p_soft=0.6, n_types=10),
-    "gaps": dict(p_unknown_dep=0.25, p_foreign_dep=0.3, p_opt=0.5, p_fault=0.08, w_decorate=1, n_types=7),
+    "gaps": dict(p_unknown_dep=0.25, p_foreign_dep=0.3, p_opt=0.5, p_fault=0.08, w_decorate=1, n_types=7, p_export=0.3,
+                 early_scopes=0.6),
+    "gfaults": dict(p_group_result=0.7, p_group_param=0.7, p_soft=0.1, p_flatten=0.4, n_types=3, p_fault=0.35,
+                    w_decorate=0.5, early_scopes=0.8, w_scope=3, w_invoke=8),
     "cycles": dict(p_cycle=0.45, p_defer=0.5, p_export=0.3, w_provide=12, w_invoke=4, w_decorate=0.5,
                    p_fault=0.0, n_types=4, p_named=0.1, p_group_result=0.2, p_group_param=0.3, w_scope=3,
                    p_unknown_dep=0.02, p_foreign_dep=0.05),
